@@ -218,5 +218,25 @@ fn main() {
         }
     }
     ctx.notes.push(format!("traces validated: {n_traces}"));
+    // known findings: the two shapes in which the result does depend on the slicing
+    for (id, file) in [
+        ("C10-task-print-race", "/verif/corpus/C10-task-print-race.abra"),
+        ("C10-channel-merge-race", "/verif/corpus/C10-channel-merge-race.abra"),
+    ] {
+        let src = std::fs::read_to_string(file).expect("corpus file");
+        match compile_program(&src) {
+            Ok(mk) => {
+                let a = obs(&run(&mk, &Schedule::constant(1)));
+                let b = obs(&run(&mk, &Schedule::constant(BIG_PC)));
+                if a != b {
+                    ctx.known_findings.push(id.to_string());
+                    ctx.notes.push(format!("{id}: budget 1 -> {:?} / budget {BIG_PC} -> {:?}", a, b));
+                } else {
+                    ctx.notes.push(format!("{id}: no longer reproduces ({:?})", a));
+                }
+            }
+            Err(o) => ctx.notes.push(format!("{id}: replay program no longer compiles: {}", o.tag())),
+        }
+    }
     ctx.finish();
 }
